@@ -48,7 +48,8 @@ Definition holds (c : case) : bool :=
   | CAlias g cr f o changed => h_invoke g cr f o changed
   | CTask g f o changed =>
     match o with
-    | OHandled => match fn_method f with Some m => negb (disabled g m) | None => false end
+    (* a task list is accepted from any certificate: the robot's own functions must never run as tasks *)
+    | OHandled => negb (is_robot_fn f) && match fn_method f with Some m => negb (disabled g m) | None => false end
     | _ => negb changed
     end
   | CInit cr a changed => if a then cr_ok cr && cr_admin_ou cr else negb changed
